@@ -497,7 +497,21 @@ impl<T: Clone> RawTable<T> {
         guard.0.clone_from_with_hasher(&source.table, &hasher);
         mem::forget(guard);
         // Since we're doing the work of cloning anyway, we might as well carry the leftovers.
-        and_carry_with_hasher(&mut self.table, &source.leftovers, hasher);
+        //
+        // Everything in the table has been placed with `hasher` -- the *source's* -- and our owner
+        // only adopts the source's hash builder once we have returned. If `T::clone` or the hasher
+        // panics while we carry the leftovers, the elements cloned so far must therefore not stay
+        // behind: lookups with the destination's own hasher would not find them (and a later
+        // insert would add a second copy).
+        struct ClearOnUnwind<'a, T>(&'a mut raw::RawTable<T>);
+        impl<T> Drop for ClearOnUnwind<'_, T> {
+            fn drop(&mut self) {
+                self.0.clear();
+            }
+        }
+        let guard = ClearOnUnwind(&mut self.table);
+        and_carry_with_hasher(&mut *guard.0, &source.leftovers, hasher);
+        mem::forget(guard);
         #[cfg(griddle_verif)]
         if crate::verif::tracing() {
             crate::verif::write_record("clone_from", 0, R, source.verif_counters(), Some(_verif_dest), self.verif_counters());
